@@ -20,6 +20,7 @@ EXPLANATION = (
     "end-anchored and applied with re.match; (f) copy roles: export copies from job.path to a path beneath the target, "
     "import copies into job.path / job.fn(...) only, never overwriting (DestinationExistsError mapping, C04-b)."
     " (i) The import / export loops carry nothing between entries; a loop that prunes os.walk's dirnames iterates the live top-down generator; archive member paths are decomposed by position, never by searching the text of another path."
+    ' (k) No glob-pattern enumeration of job files (hidden files); (l) the zip exporter writes file members only (the importer writes every member as a file); (m) the directory crawler and the schema anchor use the origin in the same spelling; a prefix built as `x + sep` needs a normalised x.'
 )
 UNDECIDED = ("The value-level round trip (ids, documents, file trees equal), archive member naming and formatted floats are not "
              "decided. Observed but not claimed: the schema-string converter drops literal text after the last field.")
@@ -366,6 +367,16 @@ def c16_e(ctx: Ctx):
                 accepted |= set(v)
             elif isinstance(v, dict) and all(isinstance(x, str) for x in v):
                 accepted |= set(v)
+    if not accepted:
+        # a converter table: the names are the keys of a mapping that is consulted with the type name and guards the ValueError
+        for n in body_nodes(f):
+            if isinstance(n, ast.Assign) and isinstance(n.value, ast.Dict) and n.value.keys and all(isinstance(k2, ast.Constant) and isinstance(k2.value, str) for k2 in n.value.keys) \
+                    and len(n.targets) == 1 and isinstance(n.targets[0], ast.Name):
+                tbl = n.targets[0].id
+                guards = [c for c in body_nodes(f) if isinstance(c, ast.Compare) and len(c.ops) == 1 and isinstance(c.ops[0], (ast.In, ast.NotIn)) and canon(c.comparators[0]) == tbl]
+                raises = [r for r in body_nodes(f) if isinstance(r, ast.Raise)]
+                if guards and raises:
+                    accepted |= {k2.value for k2 in n.value.keys}
     if not accepted:
         out.append(ctx.inc(R, f, f.node, "the type names accepted by the schema-string converter could not be determined"))
     elif accepted == set(types):
